@@ -29,10 +29,15 @@ package commitment
 //@ ghost func NVotedFor(d bool, c *scheduler.Committee, sc *SchedulerCommitment, n int, h hash.Hash) int { return count(0, n, func(j int) bool { return VotedFor(d, c, sc, j, h) }) }
 //@ ghost func VoteOf(ec *ExecutorCommitment) hash.Hash { return ufr[hash.Hash]("toVote", ec) }
 
+//@ ghost var GVoteHdrHash int
+
 //@ func ExecutorCommitment.ToVote
-//@   trusted
-//@   pure
-//@   ensures result == VoteOf(c)
+//@   props C11
+//@   modifies GVoteHdrHash
+//@   trustframe
+//@   ensures-trusted result == VoteOf(c)
+//@   ensures GVoteHdrHash > old(GVoteHdrHash)
+//@   note partially verified (was trusted): the vote is obtained by hashing the COMPUTE-RESULTS header (counted call of ComputeResultsHeader.EncodedHash) - what the workers agree or disagree on - and nothing per-node: hashing the whole executor commitment header would mix in the scheduler id and each node's own RAK signature, and workers that computed the identical result would count as dissenting (seed C11_l). Assumed: the vote is a function of the commitment object (VoteOf)
 //@   note the vote is the encoded hash of the compute-results header; as a function of the commitment object it is stable while the object is not modified
 
 //@ func ExecutorCommitment.IsIndicatingFailure
@@ -42,7 +47,7 @@ package commitment
 
 //@ func SchedulerCommitment.Add
 //@   props C11
-//@   modifies sc, sc.Votes
+//@   modifies sc, sc.Votes, GVoteHdrHash
 //@   ensures err == ErrAlreadyCommitted || err == nil
 //@   ensures (err == nil) == !old(inDom(sc.Votes, ec.NodeID))
 //@   ensures err != nil ==> sc.Commitment == old(sc.Commitment) && (forall k signature.PublicKey :: inDom(sc.Votes, k) == old(inDom(sc.Votes, k)) && sc.Votes[k] == old(sc.Votes[k]))
@@ -54,7 +59,7 @@ package commitment
 //@ func Pool.processCommitments
 //@   props C11
 //@   requires p != nil && c != nil
-//@   modifies nothing
+//@   modifies GVoteHdrHash
 //@   ensures err != nil ==> result0 == nil
 //@   ensures err == nil ==> inDom(p.SchedulerCommitments, p.HighestRank) && result0 == p.SchedulerCommitments[p.HighestRank]
 //@   ensures err == nil && !p.Discrepancy ==> NFailed(p.Discrepancy, c, result0, len(c.Members)) <= int(allowedStragglers)
